@@ -893,6 +893,8 @@ func (m *metadataAPI) ReportGroupCoordinator(ctx context.Context, req *proto.Rep
 			fmt.Sprintf("Consumer %s is not a member of consumer group %s", req.ConsumerId, req.GroupId))
 	}
 
+	verifGate("metadata.report_group_coordinator.checked")
+
 	m.consumerGroupsMu.Lock()
 	failover := m.groupFailovers[group]
 	if failover == nil {
